@@ -11,5 +11,11 @@ CLAIMED = {
   "note": "trusts CPython float<->decimal conversion; exact-text fixpoint demanded for circuits already in parser normal form (else stability after one round) and not at decimals=15 (16 significant digits do not round-trip in IEEE-754); limits that collapse at the printed precision are skipped (counted)",
   "technique": "runtime monitoring: generator-as-oracle differential check of parse/serialise over generated circuit trees and spellings",
  },
+ "C04": {
+  "text": "Held on every observed execution: ~1.0e6 (quick) strings are fed to the real parse_cdc and each outcome is classified by exception type and origin frame - exhaustive concatenations of <=4 atoms over a 30-atom lexical alphabet (thorough adds length 5 over a 20-atom core), <=3 (4) atoms of a 22-atom phrase alphabet, grammar-derived valid codes with every prefix, every single-character deletion and random single/double insertions/substitutions, nesting-depth probes to 3000, and a sample through cli.utility.parse_circuits. Anything other than a Circuit, a Parsing/TokenizingError or a ValueError with a message is a violation; every accepted string is simulated (result or ImpedanceError/NotImplementedError refusal) and, when its values lie within limits, its 17-decimal serialisation must be accepted and equal in normal form. Two open findings: RecursionError beyond ~100 nesting levels; overflowing literals (1e999) accepted as values whose serialisation 'INF' is rejected.",
+  "design_ref": "DESIGN.md 5/C04",
+  "note": "bounded-exhaustive + mutation-based string exploration; says nothing about strings outside the alphabets/mutation neighbourhoods; exception origin is taken from the innermost traceback frame",
+  "technique": "runtime monitoring: exception-origin classifier over exhaustive/mutated input strings at the parser boundary",
+ },
 }
 NOT_APPLICABLE = {}
